@@ -417,18 +417,39 @@ func zvkOwnText(c *zvkKid) string {
 	return zvkJoin(ms)
 }
 
-// zvkBaseText: the encoder's output when the encoder accepts the value, the own canonical text otherwise.
+// zvkBaseText is the text the near-miss / certificate stages start from.  It never depends on the encoder under test being
+// right: the encoder's output is used only when it is structurally the canonical text (one object with exactly the twelve
+// members, each once - checked with the harness's own scan); whenever the encoder refuses, crashes or produces anything
+// else, the harness's own hand-written canonical text is used.  (What the encoder does is judged in the enc events.)
 func zvkBaseText(c *zvkKid) (s string) {
+	own := zvkOwnText(c)
 	defer func() {
 		if recover() != nil {
-			s = zvkOwnText(c)
+			s = own
 		}
 	}()
 	out, err := c.concrete().Marshal()
-	if err != nil {
-		return zvkOwnText(c)
+	if err != nil || !zvkCanonicalShape(out) {
+		return own
 	}
 	return out
+}
+
+func zvkCanonicalShape(text string) bool {
+	ms, ok := zvkScan([]byte(text))
+	if !ok || len(ms) != len(zvkAllFields) {
+		return false
+	}
+	seen := map[string]bool{}
+	for _, m := range ms {
+		seen[m.Key] = true
+	}
+	for _, f := range zvkAllFields {
+		if !seen[f] {
+			return false
+		}
+	}
+	return true
 }
 
 func zvkRecase(f string, r *mrand.Rand) string {
@@ -493,10 +514,8 @@ func zvkValueRaw(f string, v int, r *mrand.Rand) json.RawMessage {
 
 // zvkMutate applies one abstract mutation to the base text.
 func zvkMutate(base string, f, m string, v int, r *mrand.Rand) string {
-	ms, ok := zvkScan([]byte(base))
-	if !ok {
-		panic("verif: base text is not an object: " + base)
-	}
+	// base comes from zvkBaseText and therefore has the canonical shape (every field exactly once)
+	ms, _ := zvkScan([]byte(base))
 	idx := -1
 	for i, x := range ms {
 		if x.Key == f {
@@ -504,7 +523,7 @@ func zvkMutate(base string, f, m string, v int, r *mrand.Rand) string {
 		}
 	}
 	if idx < 0 {
-		panic("verif: base text lacks field " + f)
+		panic("verif: harness bug: base text without field " + f + " (zvkBaseText guarantees the canonical shape): " + base)
 	}
 	switch m {
 	case "delete":
@@ -998,9 +1017,16 @@ func zvkExecShim(t *testing.T, jobs []zvkShimJob) []*zvkEvent {
 		_ = agent.ServeAgent(kr, c2)
 		c2.Close()
 	}()
+	// Whatever the shim does over this healthy keyring is behaviour of the code under test: it is recorded (found = false) and
+	// judged, never a harness failure.  Only the keyring itself (x/crypto) failing aborts the run.
 	srv, err := newShimAgent(c1, false)
 	if err != nil {
-		t.Fatalf("verif: newShimAgent failed on a healthy agent: %v", err)
+		t.Logf("verif: newShimAgent failed on a healthy agent: %v", err)
+		evs := make([]*zvkEvent, len(jobs))
+		for i, j := range jobs {
+			evs[i] = zvkNewEvent("shim", j.cs)
+		}
+		return evs
 	}
 	defer srv.Close()
 	srv.pubKeyComp = func(x, y ssh.PublicKey) bool { return bytes.Compare(x.Marshal(), y.Marshal()) < 0 }
@@ -1029,7 +1055,7 @@ func zvkExecShim(t *testing.T, jobs []zvkShimJob) []*zvkEvent {
 					}
 				}()
 				if err := srv.AddHardCert(crt, string(cb)); err != nil {
-					t.Fatalf("verif: AddHardCert failed: %v", err)
+					t.Logf("verif: AddHardCert refused a valid certificate whose key is in the agent (job %s): %v", j.tid, err)
 				}
 			}()
 		} else {
@@ -1049,7 +1075,8 @@ func zvkExecShim(t *testing.T, jobs []zvkShimJob) []*zvkEvent {
 		var err error
 		keys, err = srv.List()
 		if err != nil {
-			t.Fatalf("verif: List failed on a healthy agent: %v", err)
+			t.Logf("verif: List failed on a healthy agent: %v", err)
+			keys = nil
 		}
 	}()
 	byBlob := map[string]string{}
@@ -1064,8 +1091,6 @@ func zvkExecShim(t *testing.T, jobs []zvkShimJob) []*zvkEvent {
 		if seen[blobs[i]] {
 			e.Found = true
 			e.Cmt = zvkEnc(byBlob[blobs[i]])
-		} else if !pan {
-			t.Fatalf("verif: a valid certificate added to the agent was not listed (job %s)", jobs[i].tid)
 		}
 	}
 	return evs
